@@ -7,7 +7,8 @@ import HcipyVerif.Model.NearField
 C04 setup fresnel|angular nx ny dx dy lam z n q s
    -> ok M=[mx,my] cut=y0:y1:x0:x1|none branch=ir|tf slack=… regime=0|1 noevan=0|1 minrad=… nudelta=[…] nuzero=[…]
 C04 tf ix iy      -> ok turns=[…]   (fresnel: sub-sample phases in turns mod 1)
-                   | ok rad=[…]     (angular: sub-sample radicands (n/λ)² - ν²)
+                   | ok rad=[…] evz=… evzold=…   (angular: sub-sample radicands (n/λ)² - ν²; decay distance of
+                                                   evanescent components, repaired and unrepaired code)
 ```
 -/
 namespace HcipyVerif.Driver.C04
@@ -46,7 +47,7 @@ def step (st : St) : List String → St × String
       if ix ≥ mx p || iy ≥ my p then (st, "err index") else
       match p.kind with
       | .fresnel => (st, s!"ok turns={showRatList (fresnelSubTurns p ix iy)}")
-      | .angular => (st, s!"ok rad={showRatList (angularSubRadicands p ix iy)}")
+      | .angular => (st, s!"ok rad={showRatList (angularSubRadicands p ix iy)} evz={showRat (evanescentZ p)} evzold={showRat (evanescentZOld p)}")
     | none, some _, some _ => (st, "err value")
     | _, _, _ => (st, "bad-op")
   | _ => (st, "bad-op")
